@@ -71,6 +71,7 @@ func stageBChild(c *vkit.Ctx) {
 	type want struct {
 		rec   e2e.Rec
 		where string
+		span  int // in-stream: bytes from the start of the previous valid record on the connection to the end of this one
 	}
 	var demanded []want
 	nb := 3 + r.Intn(3)
@@ -78,16 +79,56 @@ func stageBChild(c *vkit.Ctx) {
 		nb = 2
 	}
 	connID := 9000 + idx*100
+	if idx == 0 && !bigMode {
+		// Probe for the recorded finding sentinel-cut:after-buffer-filling-garbage, as deterministic as a socket allows: a valid
+		// record, then short lines that are not record starts up to 10 bytes short of 3 x record limit, then the first 60
+		// bytes of a valid record, a pause shorter than the flush interval, then the rest.
+		connID++
+		R := defs.InputLogMaxRecordBytes
+		first := e2e.Rec{Conn: connID, Seq: 1, App: "appB", Sev: 3, Host: "h2", Kind: "plain"}
+		sent := e2e.Rec{Conn: connID, Seq: 2, App: "appA", Sev: 6, Host: "h1", Kind: "plain", Pad: 40}
+		last := e2e.Rec{Conn: connID, Seq: 3, App: "appB", Sev: 3, Host: "h2", Kind: "plain"}
+		var sb bytes.Buffer
+		sb.WriteString(first.Line() + "\n")
+		for sb.Len() < 3*R-10-8 {
+			sb.WriteString("garbage\n")
+		}
+		for sb.Len() < 3*R-10-1 {
+			sb.WriteByte('g')
+		}
+		sb.WriteByte('\n')
+		part1 := append(append([]byte(nil), sb.Bytes()...), sent.Line()[:60]...)
+		part2 := []byte(sent.Line()[60:] + "\n" + last.Line() + "\n")
+		if conn, err := net.DialTimeout("tcp", a.Addr, 5*time.Second); err == nil {
+			tc := conn.(*net.TCPConn)
+			_, e1 := tc.Write(part1)
+			time.Sleep(3 * time.Millisecond)
+			_, e2 := tc.Write(part2)
+			_ = tc.CloseWrite()
+			_ = tc.SetReadDeadline(time.Now().Add(20 * time.Second))
+			var one [8]byte
+			_, _ = tc.Read(one[:])
+			_ = tc.Close()
+			if e1 == nil && e2 == nil {
+				demanded = append(demanded, want{sent, "in-stream", len(part1) + len(part2) - len(last.Line()) - 1})
+				c.Event("stageB_overflow_probe", 1)
+			}
+		}
+	}
 	for b := 0; b < nb; b++ {
 		nconn := 1 + r.Intn(3)
 		var wg sync.WaitGroup
 		var streams [][]byte
 		var ends []string
 		var wants [][]want
+		var atomicRanges [][][2]int // per connection: byte ranges of the in-stream sentinels, never split across two writes
+		var writeSizes, rstDelays []int
 		for k := 0; k < nconn; k++ {
 			connID++
 			var sb bytes.Buffer
 			var ws []want
+			var ranges [][2]int
+			prevValidStart := 0 // start of the last line known to be a valid record start (the stream start counts)
 			nseg := 1 + r.Intn(6)
 			seq := 0
 			for s := 0; s < nseg; s++ {
@@ -117,8 +158,14 @@ func stageBChild(c *vkit.Ctx) {
 					sent := e2e.Rec{Conn: connID, Seq: seq, App: "appA", Sev: 6, Host: "h1", Kind: []string{"plain", "esc", "email"}[r.Intn(3)], Pad: r.Intn(50)}
 					seq++
 					guard := e2e.Rec{Conn: connID, Seq: seq, App: "appB", Sev: 3, Host: "h2", Kind: "plain"}
+					// A sentinel is demanded intact, so its bytes must arrive without a pause inside them: when this harness is
+					// descheduled between two writes for longer than the input flush interval, the reader legitimately hands over
+					// what it has (the documented flush on read time-out), which would cut a line that straddles the two writes.
+					ranges = append(ranges, [2]int{sb.Len(), sb.Len() + len(sent.Line()) + 1})
+					span := sb.Len() + len(sent.Line()) + 1 - prevValidStart
+					prevValidStart = sb.Len() + len(sent.Line()) + 1 // the guard
 					sb.WriteString(sent.Line() + "\n" + guard.Line() + "\n")
-					ws = append(ws, want{sent, "in-stream"})
+					ws = append(ws, want{sent, "in-stream", span})
 				}
 			}
 			end := []string{"close", "rst", "halfline-rst", "halfline-close"}[r.Intn(4)]
@@ -128,11 +175,17 @@ func stageBChild(c *vkit.Ctx) {
 			streams = append(streams, sb.Bytes())
 			ends = append(ends, end)
 			wants = append(wants, ws)
+			atomicRanges = append(atomicRanges, ranges)
+			writeSizes = append(writeSizes, 1+r.Intn(8000))
+			rstDelays = append(rstDelays, r.Intn(20))
 		}
 		// the batch is on disk before anything is sent
 		c.LogCase(fmt.Sprintf("B:%d:batch%d", idx, b))
 		for k, s := range streams {
 			_ = os.WriteFile(filepath.Join(c.WorkDir(), fmt.Sprintf("current-batch-conn%d", k)), s, 0o644)
+			if os.Getenv("VERIF_DEBUG") != "" {
+				_ = os.WriteFile(filepath.Join(c.WorkDir(), fmt.Sprintf("batch%d-conn%d-ws%d-%s", b, k, writeSizes[k], ends[k])), s, 0o644)
+			}
 		}
 		written := make([]bool, nconn)
 		for k := range streams {
@@ -145,12 +198,20 @@ func stageBChild(c *vkit.Ctx) {
 				}
 				tc := conn.(*net.TCPConn)
 				data := streams[k]
-				ws := 1 + r.Intn(8000)
+				ws := writeSizes[k]
 				ok := true
 				for off := 0; off < len(data) && ok; {
 					n := ws
 					if off+n > len(data) {
 						n = len(data) - off
+					}
+					for _, ar := range atomicRanges[k] {
+						if os.Getenv("VERIF_C07_NOATOMIC") != "" {
+							break
+						}
+						if ar[0] < off+n && off+n < ar[1] { // the write would end inside a sentinel: extend it to the sentinel's end
+							n = ar[1] - off
+						}
 					}
 					_ = tc.SetWriteDeadline(time.Now().Add(30 * time.Second))
 					w, err := tc.Write(data[off : off+n])
@@ -162,7 +223,7 @@ func stageBChild(c *vkit.Ctx) {
 				written[k] = ok
 				switch ends[k] {
 				case "rst", "halfline-rst":
-					time.Sleep(time.Duration(r.Intn(20)) * time.Millisecond)
+					time.Sleep(time.Duration(rstDelays[k]) * time.Millisecond)
 					_ = tc.SetLinger(0)
 					_ = tc.Close()
 				default:
@@ -209,7 +270,7 @@ func stageBChild(c *vkit.Ctx) {
 			c.Violation("sentinel-not-delivered:fresh-connection", fmt.Sprintf("a valid record sent on a fresh connection after batch %d of stage-B case %d was not delivered within 15 s", b, idx), batchWitness(streams, ends))
 			break
 		}
-		demanded = append(demanded, want{post, "fresh-connection"})
+		demanded = append(demanded, want{post, "fresh-connection", 0})
 	}
 	// let the in-stream sentinels arrive (bounded), then stop
 	for dl := time.Now().Add(10 * time.Second); time.Now().Before(dl); {
@@ -240,6 +301,12 @@ func stageBChild(c *vkit.Ctx) {
 	for _, w := range demanded {
 		got, ok := d[w.rec.Stamp()]
 		if !ok {
+			if w.where == "in-stream" && w.span >= 3*defs.InputLogMaxRecordBytes {
+				// the same recorded failure with the cut falling inside the header: neither fragment is a record
+				c.Violation("sentinel-cut:after-buffer-filling-garbage", fmt.Sprintf("valid record %s was not delivered: %d bytes of lines that are not record starts precede it on the connection since the last valid record "+
+					"(reader buffer %d, record limit %d): checkOverflow handed over a fragment of its line", w.rec.Stamp(), w.span, defs.ListenerLineBufferSize, defs.InputLogMaxRecordBytes), map[string]any{"line": w.rec.Line(), "span": w.span})
+				continue
+			}
 			c.Violation("sentinel-not-delivered:"+w.where, fmt.Sprintf("valid record %s (%s, stage-B case %d) surrounded by hostile input was not delivered", w.rec.Stamp(), w.where, idx), map[string]any{"line": w.rec.Line()})
 			continue
 		}
@@ -256,6 +323,18 @@ func stageBChild(c *vkit.Ctx) {
 			}
 		}
 		if len(bad) > 0 {
+			// One specific, recorded failure (KNOWN_FINDINGS.txt): the lines between the previous valid record and this one -
+			// which the reader keeps buffered as one unfinished "record" - fill the connection buffer up to the point where
+			// less than one record limit is free while this record's line has only partly arrived; multiLineReader.checkOverflow
+			// then hands over the fragment it has (and the rest of the line later, as garbage). Recognised by: delivered log is
+			// a proper prefix of the sent message, and the span since the previous valid record reaches 3 x record limit.
+			if raw := w.rec.RawMessage(); w.where == "in-stream" && w.span >= 3*defs.InputLogMaxRecordBytes && len(got.Fields["log"]) < len(raw) &&
+				(strings.HasPrefix(raw, got.Fields["log"]) || strings.HasPrefix(wf["log"], got.Fields["log"])) && len(bad) == 1 && strings.HasPrefix(bad[0], "log:") {
+				c.Violation("sentinel-cut:after-buffer-filling-garbage", fmt.Sprintf("valid record %s was delivered cut (%q): %d bytes of lines that are not record starts precede it on the connection since the last valid record, "+
+					"the reader's buffer (%d) had less than one record limit (%d) free when the record's line had partly arrived, and checkOverflow handed over the fragment",
+					w.rec.Stamp(), trunc([]byte(got.Fields["log"]), 60), w.span, defs.ListenerLineBufferSize, defs.InputLogMaxRecordBytes), map[string]any{"line": w.rec.Line(), "span": w.span})
+				continue
+			}
 			c.Violation("sentinel-corrupted:"+w.where, fmt.Sprintf("valid record %s (%s) was delivered altered: %s", w.rec.Stamp(), w.where, strings.Join(bad, "; ")), map[string]any{"line": w.rec.Line()})
 			continue
 		}
